@@ -73,6 +73,19 @@ def judge(chk, tag, V, obs, code, spec, fc_specs):
         fails.append(("face_areas", "face areas do not sum to the surface area"))
     for prob in obs.get("face_area_forms", []):
         fails.append(("get_face_area-call-forms", prob))
+    # a "face" is one facet of the hull: the simplices grouped into it must be coplanar (exactly, for the dyadic inputs used here;
+    # 1e-10 of the size allowed) - otherwise per-face areas and face centroids describe something that is not a face
+    Vv, Ss = obs["vertices"], obs["simplices"]
+    for grp in obs["coplanar"]:
+        if len(grp) < 2:
+            continue
+        a, b, c = Vv[Ss[grp[0]]]
+        N = np.cross(b - a, c - a)
+        pts = Vv[np.unique(Ss[list(grp)])]
+        dev = float(np.max(np.abs((pts - a) @ N))) / (float(np.linalg.norm(N)) + 1e-300)
+        if dev > 1e-10 * R:
+            fails.append(("face-not-planar", "simplices %s are reported as one face but deviate from a common plane by %.3g" % (list(map(int, grp))[:6], dev)))
+            break
     # face centroids against the exact centroid of the facet
     for k, fc in enumerate(fc_specs):
         if fc is None:
@@ -89,7 +102,7 @@ def run(chk):
                          "hull has >=1 non-triangular face or is off-origin; distinct by hash of the vertex array")
     shapes = []
     for _ in range(nshapes):
-        kind, V = gen.convex_set(rng)
+        kind, V = gen.convex_set(rng, kinds=("ellipsoid", "ellipsoid", "lattice", "prismatic", "flat", "needle", "creased"))
         shapes.append((kind, V))
     if chk.tier == "thorough":
         shapes += tabulated()
